@@ -36,7 +36,9 @@ pub fn warm() {
         // best effort and not a verdict about any property: the pieces are warmed independently,
         // a piece the implementation does not accept is left to the checks to judge
         let interp = Interpreter::with_stdlib();
-        let whole = Code::parse(&interp, WARM_PROGRAM).ok().and_then(|code| code.exec().ok());
+        // a panic while warming is not the warm-up's to report either (the checks will meet it)
+        let quiet = |f: &mut dyn FnMut() -> bool| crate::core::guard(f).unwrap_or(false);
+        let whole = quiet(&mut || Code::parse(&interp, WARM_PROGRAM).ok().and_then(|code| code.exec().ok()).is_some()).then_some(());
         if whole.is_none() {
             eprintln!("note: the warm-up program is not accepted as a whole; warming its statements one by one");
             let mut interp = Interpreter::with_stdlib();
@@ -44,12 +46,15 @@ pub fn warm() {
                 "[1]~ $+", "[1.5]~ $+", "[\"a\"]~ $+", "[1]~ $*", "[1.5]~ $*", "[true]~ $&&", "[true]~ $||", "[1]~ $&", "[1]~ $|", "[1]~ \\ tr",
                 "[1]~ $ 0 (acc: int, cur: int) -> int { return acc + cur }", "for e in [1]~ { e }", "std.math.MIN_INT", "std.io.print",
                 "std.string.trim(\" a\")", "std.convert.to_int(1)", "std.operators.all", "std.len([1])"] {
-                if let Ok(code) = Code::parse(&interp, piece) {
-                    let _ = code.exec_unscoped(&mut interp);
-                }
+                let _ = quiet(&mut || {
+                    if let Ok(code) = Code::parse(&interp, piece) {
+                        let _ = code.exec_unscoped(&mut interp);
+                    }
+                    true
+                });
             }
         }
-        let _ = "()->(bool, int)".parse::<simplesl::variable::Type>();
-        let _ = "[1, 2]".parse::<simplesl::variable::Variable>();
+        let _ = quiet(&mut || "()->(bool, int)".parse::<simplesl::variable::Type>().is_ok());
+        let _ = quiet(&mut || "[1, 2]".parse::<simplesl::variable::Variable>().is_ok());
     });
 }
